@@ -7,7 +7,10 @@
     factor / offset / minimum / maximum with optional sign, unit string, one or more receivers) and
     unknown lines, in the plain layout: one line per definition (per signal), tokens separated by
     single spaces (none before ':' after the keyword of BS_/BU_, none between '-' and its number),
-    LF line ends, every line terminated.  The remaining kinds and layouts
+    LF line ends, every line terminated.  Also covered (one line each, single spaces, terminated by
+    " ;"): CM_ (all five object forms), VAL_ (signal and environment variable form), VAL_TABLE_,
+    SIG_VALTYPE_ (with and without ':'), BO_TX_BU_ (with and without commas), EV_, ENVVAR_DATA_; their
+    numbers are optionally signed decimal integers, their strings plain.  The remaining kinds and layouts
     of section 4.1 are exercised by the generator of harness/parser/gen.go (which is the executable
     definition of the full class used by the correspondence check).
 
@@ -38,12 +41,27 @@ Record ssignal := {
   ss_unit : bytes;
   ss_receiver : bytes; ss_receivers : list bytes }.     (* first receiver, further receivers *)
 
+(** the object a comment (or attribute value) refers to *)
+Inductive sobj :=
+| ObjNone
+| ObjNode (n : bytes)
+| ObjMessage (id : bytes)
+| ObjSignal (id n : bytes)
+| ObjEnvVar (n : bytes).
+
 Inductive sdef :=
 | SVersion (s : bytes)
 | SBitTiming (bt : option (bytes * option (bytes * bytes)))   (* [ baud [ : btr1 , btr2 ] ] *)
 | SNodes (names : list bytes)
 | SMessage (id name size tx : bytes) (signals : list ssignal)
-| SUnknown (kw : bytes) (toks : list utok).
+| SUnknown (kw : bytes) (toks : list utok)
+| SComment (o : sobj) (text : bytes)
+| SValues (id : option bytes) (n : bytes) (vs : list (snum * bytes))      (* VAL_ [id] name { value "text" } ; *)
+| SValueTable (n : bytes) (vs : list (snum * bytes))
+| SSigValType (id n : bytes) (colon : bool) (t : bytes)
+| SMsgTx (id : bytes) (txs : list (bytes * bool))                           (* name, followed by a comma? *)
+| SEnvVar (n t : bytes) (mn mx : snum) (unit : bytes) (init : snum) (id : bytes) (acc : Z) (node : bytes) (nodes : list bytes)
+| SEnvVarData (n size : bytes).
 
 Definition print_utok (t : utok) : bytes :=
   match t with
@@ -73,8 +91,38 @@ Definition print_signal (s : ssignal) : bytes :=
   ++ 32 :: 93 :: 32 :: 34 :: ss_unit s ++ 34 :: 32 :: ss_receiver s
   ++ concat (map (fun r => 32 :: 44 :: 32 :: r) (ss_receivers s)) ++ [10].
 
+Definition print_obj (o : sobj) : bytes :=
+  match o with
+  | ObjNone => []
+  | ObjNode n => 32 :: kw_nodes ++ 32 :: n
+  | ObjMessage i => 32 :: kw_message ++ 32 :: i
+  | ObjSignal i n => 32 :: kw_signal ++ 32 :: i ++ 32 :: n
+  | ObjEnvVar n => 32 :: kw_envvar ++ 32 :: n
+  end.
+
+(** { value "text" }: each item preceded by one space *)
+Definition print_value (v : snum * bytes) : bytes := 32 :: print_num (fst v) ++ 32 :: 34 :: snd v ++ [34].
+Definition print_values (vs : list (snum * bytes)) : bytes := concat (map print_value vs).
+
+Definition print_tx (x : bytes * bool) : bytes := 32 :: fst x ++ (if snd x then [32; 44] else []).
+
+Definition access_name (a : Z) : bytes :=
+  if a =? 0 then s_ACC0 else if a =? 1 then s_ACC1 else if a =? 2 then s_ACC2 else s_ACC3.
+
 Definition print_def (d : sdef) : bytes :=
   match d with
+  | SComment o t => kw_comment ++ print_obj o ++ 32 :: 34 :: t ++ 34 :: 32 :: 59 :: [10]
+  | SValues (Some i) n vs => kw_value_descriptions ++ 32 :: i ++ 32 :: n ++ print_values vs ++ 32 :: 59 :: [10]
+  | SValues None n vs => kw_value_descriptions ++ 32 :: n ++ print_values vs ++ 32 :: 59 :: [10]
+  | SValueTable n vs => kw_value_table ++ 32 :: n ++ print_values vs ++ 32 :: 59 :: [10]
+  | SSigValType i n colon t =>
+    kw_signal_value_type ++ 32 :: i ++ 32 :: n ++ (if colon then [32; 58] else []) ++ 32 :: t ++ 32 :: 59 :: [10]
+  | SMsgTx i txs => kw_message_transmitters ++ 32 :: i ++ 32 :: 58 :: concat (map print_tx txs) ++ 32 :: 59 :: [10]
+  | SEnvVar n t mn mx u init i acc node nodes =>
+    kw_envvar ++ 32 :: n ++ 32 :: 58 :: 32 :: t ++ 32 :: 91 :: 32 :: print_num mn ++ 32 :: 124 :: 32 :: print_num mx
+    ++ 32 :: 93 :: 32 :: 34 :: u ++ 34 :: 32 :: print_num init ++ 32 :: i ++ 32 :: access_name acc ++ 32 :: node
+    ++ concat (map (fun r => 32 :: 44 :: 32 :: r) nodes) ++ 32 :: 59 :: [10]
+  | SEnvVarData n sz => kw_envvar_data ++ 32 :: n ++ 32 :: 58 :: 32 :: sz ++ 32 :: 59 :: [10]
   | SMessage i n sz tx sigs =>
     kw_message ++ 32 :: i ++ 32 :: n ++ 32 :: 58 :: 32 :: sz ++ 32 :: tx ++ 10 :: concat (map print_signal sigs)
   | SVersion s => kw_version ++ 32 :: 34 :: s ++ [34; 10]
@@ -130,9 +178,48 @@ Definition def_lines (d : sdef) : Z :=
   | _ => 1
   end.
 
+(** value descriptions of a one-line definition that starts at byte [off]: [o] is the byte offset
+    of the first character of the next value; its column is o - off + 1 *)
+Fixpoint elab_values (line off o : Z) (vs : list (snum * bytes)) : list value_description_def :=
+  match vs with
+  | [] => []
+  | v :: t =>
+    {| vd_pos := {| p_line := line; p_column := o - off + 1; p_offset := o |};
+       vd_value := num_bits (fst v); vd_description := snd v |}
+    :: elab_values line off (o + blen (print_num (fst v)) + blen (snd v) + 4) t
+  end.
+
+Definition msgid (i : bytes) : Z := uint_value i mod 2 ^ 32.
+
+Definition access_of (a : Z) : access_type :=
+  if a =? 0 then AccUnrestricted else if a =? 1 then AccRead else if a =? 2 then AccWrite else AccReadWrite.
+
 Definition elab_def (line off : Z) (d : sdef) : def :=
   let p := {| p_line := line; p_column := 1; p_offset := off |} in
   match d with
+  | SComment o t =>
+    DComment
+      match o with
+      | ObjNone => {| cm_pos := p; cm_object := OtUnspecified; cm_node := []; cm_message_id := 0; cm_signal := []; cm_envvar := []; cm_comment := t |}
+      | ObjNode n => {| cm_pos := p; cm_object := OtNode; cm_node := n; cm_message_id := 0; cm_signal := []; cm_envvar := []; cm_comment := t |}
+      | ObjMessage i => {| cm_pos := p; cm_object := OtMessage; cm_node := []; cm_message_id := msgid i; cm_signal := []; cm_envvar := []; cm_comment := t |}
+      | ObjSignal i n => {| cm_pos := p; cm_object := OtSignal; cm_node := []; cm_message_id := msgid i; cm_signal := n; cm_envvar := []; cm_comment := t |}
+      | ObjEnvVar n => {| cm_pos := p; cm_object := OtEnvVar; cm_node := []; cm_message_id := 0; cm_signal := []; cm_envvar := n; cm_comment := t |}
+      end
+  | SValues (Some i) n vs =>
+    DValueDescriptions {| vs_pos := p; vs_object := OtSignal; vs_message_id := msgid i; vs_signal := n; vs_envvar := [];
+                          vs_values := elab_values line off (off + blen kw_value_descriptions + 1 + blen i + 1 + blen n + 1) vs |}
+  | SValues None n vs =>
+    DValueDescriptions {| vs_pos := p; vs_object := OtEnvVar; vs_message_id := 0; vs_signal := []; vs_envvar := n;
+                          vs_values := elab_values line off (off + blen kw_value_descriptions + 1 + blen n + 1) vs |}
+  | SValueTable n vs => DValueTable p n (elab_values line off (off + blen kw_value_table + 1 + blen n + 1) vs)
+  | SSigValType i n _ t => DSignalValueType p (msgid i) n (uint_value t)
+  | SMsgTx i txs => DMessageTransmitters p (msgid i) (map fst txs)
+  | SEnvVar n t mn mx u init i acc node nodes =>
+    DEnvVar {| ev_pos := p; ev_name := n; ev_type := uint_value t; ev_min := num_bits mn; ev_max := num_bits mx;
+               ev_unit := u; ev_initial := num_bits init; ev_id := uint_value i; ev_access := access_of acc;
+               ev_access_nodes := node :: nodes |}
+  | SEnvVarData n sz => DEnvVarData p n (uint_value sz)
   | SMessage i n sz tx sigs =>
     DMessage {| m_pos := p; m_id := uint_value i mod 2 ^ 32; m_name := n; m_size := uint_value sz;
                 m_transmitter := tx;
@@ -200,8 +287,34 @@ Definition wf_signal (s : ssignal) : Prop :=
   /\ Forall plain_char (ss_unit s)
   /\ ident_valid (ss_receiver s) = true /\ Forall (fun r => ident_valid r = true) (ss_receivers s).
 
+Definition wf_msgid (i : bytes) : Prop := wf_uint i /\ msgid_valid (msgid i) = true.
+
+Definition wf_obj (o : sobj) : Prop :=
+  match o with
+  | ObjNone => True
+  | ObjNode n => ident_valid n = true
+  | ObjMessage i => wf_msgid i
+  | ObjSignal i n => wf_msgid i /\ ident_valid n = true
+  | ObjEnvVar n => ident_valid n = true
+  end.
+
+Definition wf_value (v : snum * bytes) : Prop := wf_num (fst v) /\ Forall plain_char (snd v).
+
+(** an enumeration digit: "0" .. "max" *)
+Definition wf_enum (t : bytes) (mx : Z) : Prop := exists d, t = [d] /\ 48 <= d <= 48 + mx.
+
 Definition wf_sdef (d : sdef) : Prop :=
   match d with
+  | SComment o t => wf_obj o /\ Forall plain_char t
+  | SValues (Some i) n vs => wf_msgid i /\ ident_valid n = true /\ Forall wf_value vs
+  | SValues None n vs => ident_valid n = true /\ Forall wf_value vs
+  | SValueTable n vs => ident_valid n = true /\ Forall wf_value vs
+  | SSigValType i n _ t => wf_msgid i /\ ident_valid n = true /\ wf_enum t 2
+  | SMsgTx i txs => wf_msgid i /\ Forall (fun x => ident_valid (fst x) = true) txs
+  | SEnvVar n t mn mx u init i acc node nodes =>
+    ident_valid n = true /\ wf_enum t 2 /\ wf_num mn /\ wf_num mx /\ Forall plain_char u /\ wf_num init /\ wf_uint i
+    /\ 0 <= acc <= 3 /\ ident_valid node = true /\ Forall (fun r => ident_valid r = true) nodes
+  | SEnvVarData n sz => ident_valid n = true /\ wf_uint sz
   | SMessage i n sz tx sigs =>
     wf_uint i /\ msgid_valid (uint_value i mod 2 ^ 32) = true /\ ident_valid n = true /\ wf_uint sz
     /\ ident_valid tx = true /\ Forall wf_signal sigs
